@@ -134,6 +134,8 @@ func runC05(c *Ctx) {
 	unpushedIncludesHead(c, "R5")
 	indexKeepsEveryPath(c, "R3")
 	gitDateHasNumericZone(c, "R5")
+	worktreeRecordKeepsPath(c, "R3")
+	recentRefsCoverAllRefs(c, "R3")
 	checkoutRetentionOnlyForce(c, "R3")
 	noFetchIncludeIn(c, "R3", "prune retains what the checkout and recent refs need on every path except those under lfs.fetchexclude", "prune", "pruneCommand")
 	// removals inside pruneDeleteFiles target ObjectPath(oid) of the listed oids
@@ -951,6 +953,8 @@ func c05Verify(c *Ctx, prune *ssa.Function) {
 }
 
 var c05Canaries = []Canary{
+	{Name: "f17-unpushed-without-head", ExpectKey: "C05.R5", Edits: []Edit{{File: "lfs/gitscanner_log.go", Find: "\t\t\"--branches\", \"--tags\", // include all locally referenced commits\n\t\t\"--not\"} // but exclude everything that comes after\n\n\t// Commits made on a detached HEAD are on no branch, but they are\n\t// unpushed all the same.\n\tif _, err := git.ResolveRef(\"HEAD\"); err == nil {\n\t\tlogArgs = append([]string{\"HEAD\"}, logArgs...)\n\t}\n\n\tif len(remote) == 0 {\n\t\tlogArgs = append(logArgs, \"--remotes\")\n\t} else {\n", Repl: "\t\t\"--branches\", \"--tags\", // include all locally referenced commits\n\t\t\"--not\"} // but exclude everything that comes after\n\n\tif len(remote) == 0 {\n\t\tlogArgs = append(logArgs, \"--remotes\")\n\t} else {\n"}}},
+	{Name: "r6-git-date-without-zone", ExpectKey: "C05.R5#git-date:numeric-zone", Edits: []Edit{{File: "git/git.go", Find: "\n// FormatGitDate converts a Go date into a git command line format date\nfunc FormatGitDate(tm time.Time) string {\n\t// Git format is \"Fri Jun 21 20:26:41 2013 +0900\" but no zero-leading for day\n\treturn tm.Format(\"Mon Jan 2 15:04:05 2006 -0700\")\n}\n\n// Get summary information about a commit\n", Repl: "\n// FormatGitDate converts a Go date into a git command line format date\nfunc FormatGitDate(tm time.Time) string {\n\t// Git accepts the format of date(1), \"Fri Jun 21 20:26:41 JST 2013\", for\n\t// which Go has a ready-made layout (no zero-leading for day either)\n\treturn tm.Format(time.UnixDate)\n}\n\n// Get summary information about a commit\n"}}},
 	{Name: "r5-ls-tree-full-name", ExpectKey: "C05.R5#git.LsTree", Edits: []Edit{{File: "git/git.go", Find: "\t\t\"--full-tree\", // start at the root regardless of where we are in it", Repl: "\t\t\"--full-name\", // start at the root regardless of where we are in it"}}},
 	{Name: "r5-worktree-heads-under-recent", ExpectKey: "C05.R3#checkout-retention-only-force", Edits: []Edit{{File: "commands/command_prune.go", Find: "\t\tif !fetchconf.PruneForce && commits.Add(worktree.Ref.Sha) {", Repl: "\t\tif !fetchconf.PruneRecent && commits.Add(worktree.Ref.Sha) {"}}},
 	{Name: "r4-dry-run-transposed", ExpectKey: "C05.R1#dry-run-flag-reaches-prune", Edits: []Edit{{File: "commands/command_fetch.go", Find: "prune(fetchPruneCfg, verify, verifyUnreachable, false, fetchDryRunArg, fetchDryRunArg)", Repl: "prune(fetchPruneCfg, verify, verifyUnreachable, fetchDryRunArg, false, fetchDryRunArg)"}}},
